@@ -24,7 +24,7 @@ impl Prop for C01 {
         "exploration"
     }
     fn rule(&self) -> String {
-        "run = seeded valid writer history (start/append/end/add interleaved, boundary-biased piece sizes relative to the variant's constants) on one of the variants s0/s1/prodv/prod x 4 layer sets x level 0..11 x 1..4 recipients (one encrypted run in 30: 17, 84, 85, 86, 128, 300 or 1000 recipients; one scaled run in 25: 65..300 files of which 1-3 stay open across dozens of others; one in 60: a file with 255..4100 - thorough: 65537 - non-contiguous runs; one compressed production-size run in 10: a 4-5 MiB file of incompressible data appended in pieces of 64..512 bytes, i.e. 8000..80000 appends into one compression block, now and then with a flush after each), written to the simulated sink with full transfers, then read back through the simulated source (caller buffers of 4 KiB, now and then 1, 7, 100, CHUNK-1, CHUNK+1, 64 KiB or 1 MiB bytes); the first 4104 runs enumerate every content length 0..512 on s0 for 1- and 2-file archives x 4 layer sets. The last 4 runs of the thorough tier hold a file of 2^32 + up to 64 MiB zero bytes (streamed, compression alone / over encryption, production constants; judged on listing, announced size, streamed length and SHA-256, stored hash, and the small files around it). Oracle: listing == model names, size, bytes and stored SHA-256 per file == abstract map model. distinct_nontrivial counts distinct signatures (variant, layers, #files, interleaved, alignment class of content length vs CHUNK and BLOCK, alignment class of the encryption-layer plaintext vs CHUNK, alignment class of the file-layer stream length vs BLOCK (compression) or CHUNK, name kinds). Half of the production-size runs are ALIGNED by a solver: a model of the file-layer stream length (blocks + marker + index footer) grows one piece so that the stream handed to the compression layer is exactly k*4 MiB (or +1, -1), respectively the encryption-layer plaintext exactly k*128 KiB (or +1..5 - the footer length field alone or split in the last chunk -, 15, 16, 17, -1).".into()
+        "run = seeded valid writer history (start/append/end/add interleaved, boundary-biased piece sizes relative to the variant's constants) on one of the variants s0/s1/prodv/prod x 4 layer sets x level 0..11 x 1..4 recipients (one encrypted run in 30: 17, 84, 85, 86, 128, 300 or 1000 recipients; one scaled run in 25: 65..300 files of which 1-3 stay open across dozens of others; one in 60: a file with 255..4100 - thorough: 65537 - non-contiguous runs; one compressed production-size run in 10: a 4-5 MiB file of incompressible data appended in pieces of 64..512 bytes, i.e. 8000..80000 appends into one compression block, now and then with a flush after each), written to the simulated sink with full transfers (one history in four with flushes between calls, one in five with piece sources that return short reads or hold more than announced), then read back through the simulated source (caller buffers of 4 KiB, now and then 1, 7, 100, CHUNK-1, CHUNK+1, 64 KiB or 1 MiB bytes); the first 4104 runs enumerate every content length 0..512 on s0 for 1- and 2-file archives x 4 layer sets. The last 4 runs of the thorough tier hold a file of 2^32 + up to 64 MiB zero bytes (streamed, compression alone / over encryption, production constants; judged on listing, announced size, streamed length and SHA-256, stored hash, and the small files around it). Oracle: listing == model names, size, bytes and stored SHA-256 per file == abstract map model. distinct_nontrivial counts distinct signatures (variant, layers, #files, interleaved, alignment class of content length vs CHUNK and BLOCK, alignment class of the encryption-layer plaintext vs CHUNK, alignment class of the file-layer stream length vs BLOCK (compression) or CHUNK, name kinds). Half of the production-size runs are ALIGNED by a solver: a model of the file-layer stream length (blocks + marker + index footer) grows one piece so that the stream handed to the compression layer is exactly k*4 MiB (or +1, -1), respectively the encryption-layer plaintext exactly k*128 KiB (or +1..5 - the footer length field alone or split in the last chunk -, 15, 16, 17, -1).".into()
     }
     fn assumptions(&self) -> Vec<String> {
         vec![
@@ -89,12 +89,21 @@ impl Prop for C01 {
             max_piece: if big { 2 * c.block + 100 } else { 3 * c.block },
             max_total: if big { 3 * c.block } else { 12 * c.block },
             interleave: rng.chance(2, 3),
-            flushes: false,
+            // one history in four also flushes between calls (round trip, not recovery: what was flushed mid-block or
+            // mid-buffer must still read back), one in five feeds pieces from sources that return short reads or hold
+            // more bytes than announced
+            flushes: rng.chance(1, 4),
             special_names: true,
             finalize: true,
-            piece_scheds: false,
+            piece_scheds: rng.chance(1, 5),
         };
         let mut ops = gen_ops(&mut rng, &c, &o);
+        if o.flushes && big && rng.chance(1, 2) {
+            // a flush right where a layer rolls over: after the piece that the alignment below will grow
+            if let Some(pos) = ops.iter().rposition(|o| matches!(o, WOp::Append { data, .. } | WOp::Add { data, .. } if data.len() > 0)) {
+                ops.insert(pos + 1, WOp::Flush);
+            }
+        }
         let mut cfg = cfg;
         let mut aligned = 0i64;
         if big && rng.chance(1, 2) {
